@@ -1,7 +1,6 @@
 #!/venv/bin/python
 """Confirm behaviour-preserving refactorings (from a sub-agent) in a scratch worktree -- the 45 tests and the agent's own
-demonstration of the property pass with each applied alone -- run every check against each (on /repo itself: `git -C /repo
-apply`, checks, `git -C /repo checkout -- .`), and file them under /verif/twins/<name>-<n>/.  Every check must stay
+demonstration of the property pass with each applied alone -- run every check against a scratch copy of HEAD with each applied, and file them under /verif/twins/<name>-<n>/.  Every check must stay
 silent: a violation or an analysis error on a twin is a false alarm of the machinery.
 
 usage: tools/twin_eval.py <dir containing twinN.diff demo.py meta.json> <name>"""
@@ -45,24 +44,23 @@ def main():
         if not result["valid"]:
             print("twin%s NOT VALID: %s" % (n, json.dumps(result["confirmed"])[:300]))
             continue
-        rc, out = sh("git -C /repo status --porcelain")
-        assert out.strip() == "", "repo not clean: " + out
-        rc, out = sh("git -C /repo apply %s" % patch)
-        assert rc == 0, out
+        # the checks run against a scratch copy of /repo's HEAD with the refactoring applied (removed afterwards)
+        copy = tempfile.mkdtemp(prefix="twincopy_")
         try:
+            rc, out = sh("git -C /repo archive HEAD pyscsi tools examples | tar -x -C %s && git apply --unsafe-paths %s" % (copy, patch), cwd=copy)
+            assert rc == 0, out
+
             def one(pid):
-                r, o = sh("./check %s --tier quick --no-evidence" % pid, cwd=VERIF)
+                r, o = sh("./check %s --tier quick --no-evidence --repo %s" % (pid, copy), cwd=VERIF)
                 return pid, r, [l for l in o.splitlines() if l.startswith("  ") or l.startswith("ANALYSIS-ERROR")][:3]
             with ThreadPoolExecutor(max_workers=9) as ex:
                 res = list(ex.map(one, PIDS))
         finally:
-            sh("git -C /repo checkout -- .")
-        rc, out = sh("git -C /repo status --porcelain")
-        assert out.strip() == "", "repo not restored: " + out
+            shutil.rmtree(copy, ignore_errors=True)
         result["checks"] = {pid: {"exit": r, "first": first} for pid, r, first in res}
         noisy = [pid for pid, r, _ in res if r != 0]
         result["false_alarms"] = noisy
-        result["ran"] = "scratch worktree: pytest and the agent's demo with the refactoring applied; then `git -C /repo apply`, ./check <id> --tier quick for all 18 properties, `git -C /repo checkout -- .`"
+        result["ran"] = "scratch worktree: pytest and the agent's demo with the refactoring applied; then ./check <id> --tier quick --repo <scratch copy of HEAD with the refactoring applied> for all 18 properties"
         dest = os.path.join(VERIF, "twins", "%s-%s" % (name, n))
         os.makedirs(dest, exist_ok=True)
         first = set(noisy)
